@@ -341,6 +341,8 @@ class StmtMixin:
             raise Unsupported(f'loop #{ordn} of {fi.key if fi else "?"} has no invariant in the sidecar')
         idx_name = spec.get('index', '$i%d' % ordn)
         fr = self.frame
+        if kind == 'for' and spec.get('iter_name'):
+            fr.locals[spec['iter_name']] = it
         fname = fi.qualname if fi else '?'
         # ---- entry: invariant holds initially
         if kind == 'for':
